@@ -129,6 +129,21 @@ struct StackPointerOffsetAnalysis {
 }
 
 impl StackPointerOffsetAnalysis {
+    // Is this expression the stack pointer with constants added or subtracted?
+    fn is_stack_pointer_offset(&self, expression: &il::Expression) -> bool {
+        match expression {
+            il::Expression::Scalar(scalar) => *scalar == self.stack_pointer,
+            il::Expression::Add(lhs, rhs) => {
+                (self.is_stack_pointer_offset(lhs) && rhs.all_constants())
+                    || (lhs.all_constants() && self.is_stack_pointer_offset(rhs))
+            }
+            il::Expression::Sub(lhs, rhs) => {
+                self.is_stack_pointer_offset(lhs) && rhs.all_constants()
+            }
+            _ => false,
+        }
+    }
+
     // Handle an operation for stack pointer offset analysis
     fn handle_operation(
         &self,
@@ -144,7 +159,9 @@ impl StackPointerOffsetAnalysis {
                         IntermediateOffset::Value(ref constant) => {
                             let expr =
                                 src.replace_scalar(&self.stack_pointer, &constant.clone().into())?;
-                            if expr.all_constants() {
+                            // Only the stack pointer plus or minus constants keeps
+                            // a fixed distance from its value at function entry
+                            if self.is_stack_pointer_offset(src) && expr.all_constants() {
                                 IntermediateOffset::Value(eval(&expr)?)
                             } else {
                                 IntermediateOffset::Top
